@@ -198,7 +198,15 @@ class RuntimeV1_0(Runtime):
                 break
 
             # As a safety measure, we stop the processing if we have too many events.
-            if len(new_events) > 100:
+            # Every configured rail takes a number of (marker) events on its own, so the
+            # limit grows with the number of rails.
+            rails = self.config.rails
+            max_events = 100 + 20 * (
+                len(rails.input.flows)
+                + len(rails.output.flows)
+                + len(rails.retrieval.flows)
+            )
+            if len(new_events) > max_events:
                 raise Exception("Too many events.")
 
         return new_events
